@@ -26,6 +26,20 @@ def be32Bytes (v : UInt32) : Bytes := [(v >>> 24).toUInt8, (v >>> 16).toUInt8, (
 /-- `(*MTU).marshal`: option 5, length 1, two reserved bytes, the MTU -/
 def mtuMarshal (mtu : UInt32) : Outcome Bytes := .ok ([5, 1, 0, 0] ++ be32Bytes mtu)
 
+/-- a server address in its 16-byte slot: `copy(raw.Value[start:end], server)` copies at most 16 bytes, the rest of the
+    slot keeps the zeros of `make` -/
+def pad16 (s : Bytes) : Bytes := s.take 16 ++ List.replicate (16 - (s.take 16).length) 0
+
+theorem pad16_length (s : Bytes) : (pad16 s).length = 16 := by
+  simp [pad16]; omega
+
+/-- `(*RecursiveDNSServer).marshal`: option 25, length `1 + 2n` (uint8 arithmetic), two reserved bytes, the lifetime in
+    seconds, the servers in 16-byte slots; no server is an error.  From 16 servers on the uint8 length wraps and
+    `(*RawOption).marshal` refuses (`rawOptMarshal`). -/
+def rdnssMarshal (lifeS : UInt32) (servers : List Bytes) : Outcome Bytes :=
+  if servers = [] then .err .other
+  else rawOptMarshal 25 (1 + UInt8.ofNat (2 * servers.length)) ([0, 0] ++ be32Bytes lifeS ++ (servers.map pad16).flatten)
+
 /-- `marshalOptions`: the encodings in order; the first option that fails (error or panic) decides -/
 def optionsMarshal : List (Outcome Bytes) → Outcome Bytes
   | [] => .ok []
